@@ -23,7 +23,9 @@ Arguments OutOfFuel {A}.
 Definition bind {A B} (r : res A) (f : A -> res B) : res B :=
   match r with Ok a => f a | Err => Err | Fault => Fault | OutOfFuel => OutOfFuel end.
 Notation "'let*' x ':=' e 'in' f" := (bind e (fun x => f))
-  (at level 200, x pattern, e at level 100, f at level 200, right associativity).
+  (at level 200, x name, e at level 100, f at level 200, right associativity).
+Notation "'let*' ' p ':=' e 'in' f" := (bind e (fun x => match x with p => f end))
+  (at level 200, p pattern, e at level 100, f at level 200, right associativity).
 Definition guard (c : bool) : res unit := if c then Ok tt else Err.
 Definition is_ok {A} (r : res A) : bool := match r with Ok _ => true | _ => false end.
 Definition res_map {A B} (f : A -> B) (r : res A) : res B := let* a := r in Ok (f a).
@@ -39,7 +41,7 @@ Definition be32 (n : N) : bytes := [n2b (n / 16777216); n2b (n / 65536); n2b (n 
 Definition be64 (n : N) : bytes := be32 (n / 4294967296) ++ be32 n.
 Definition zeros (n : nat) : bytes := repeat x00 n.
 Definition bxor (a b : byte) : byte := n2b (N.lxor (b2n a) (b2n b)).
-Definition len (b : bytes) : N := N.of_nat (length b).
+Definition len {A} (b : list A) : N := N.of_nat (length b).
 
 (* ---- Go slice / index expressions ---- *)
 Definition sub (b : bytes) (i j : nat) : res bytes :=
